@@ -495,6 +495,11 @@ fn check(evs: &[Ev], metas: &[RxMeta], cap: usize, complete: bool) -> (Vec<Findi
       sent_at_ret.push((e.call, e.ret, sent.len()));
     }
   }
+  // A send that had not returned when the scenario was given up (incomplete history) may have placed any prefix of
+  // its values: they count as possibly sent, after everything the sender completed before (one sender thread).
+  for e in evs.iter().filter(|e| e.form.is_send() && e.is_open()) {
+    sent.extend_from_slice(&e.vals);
+  }
   let pos_of: std::collections::HashMap<u64, usize> = sent.iter().enumerate().map(|(i, id)| (*id, i)).collect();
   let sender_gone_call = evs.iter().filter(|e| e.side == Side::Tx && (e.form == Form::Drop || (e.form == Form::Close && e.out == Out::Ok))).map(|e| e.call).min();
   let sender_gone_ret = evs.iter().filter(|e| e.side == Side::Tx && (e.form == Form::Drop || (e.form == Form::Close && e.out == Out::Ok))).map(|e| e.ret).min();
